@@ -163,6 +163,32 @@ def random_schedule(rng):
     }
 
 
+def allocator_schedule(tok0, n, con):
+    """One request stays outstanding (acknowledged, never answered) while n further requests to the same endpoint
+    come and go: the token allocator must not hand the pinned request's token out again."""
+    steps = [{"at": 0, "do": "submit", "q": 1, "r": 1, "con": con, "f": 0.0}]
+    for i in range(2, n + 2):
+        steps.append({"at": 10 + 2 * i, "do": "submit", "q": i, "r": 1, "con": False})
+    return {"tuning": dict(TUNING), "mid0": 4000, "tok0": tok0, "nremotes": 2, "steps": steps, "name": "allocator",
+            "autoreply": [{"match": {"r": 1}, "skip": 1, "skip_ack": True, "code": 69, "delay": 1}], "horizon": 200 * 1024}
+
+
+def forged_schedule(rng):
+    """A lost confirmable request whose message ID an unrelated endpoint (or the right endpoint's other port) echoes
+    in an empty ACK or Reset: it changes nothing, the request still times out."""
+    steps = [{"at": 0, "do": "submit", "q": 1, "r": 1, "con": True, "f": 0.0}]
+    trig = []
+    for copy in (1, 2):
+        rx = {"r": rng.choice([2, 3]), "ty": rng.choice(["ACK", "RST"]), "code": 0, "mid": {"of": 1}}
+        if rng.random() < 0.3:
+            rx = {"r": 1, "port": 6001, "ty": rng.choice(["ACK", "RST"]), "code": 0, "mid": {"of": 1}}
+        trig.append({"on": {"q": 1, "copy": copy}, "delay": rng.choice([1, 40, 700]), "rx": rx})
+    if rng.random() < 0.5:
+        steps.append({"at": rng.choice([1, 500]), "do": "submit", "q": 2, "r": 1, "con": True, "f": 0.0})
+    return {"tuning": dict(TUNING, MAX_RETRANSMIT=rng.choice([1, 2])), "mid0": rng.randint(0, 65535), "tok0": rng.randint(0, 65535),
+            "nremotes": 4, "steps": steps, "triggers": trig, "name": "forged-empty"}
+
+
 def sig_of(clause, sched):
     shape = [s["do"] for s in sched["steps"]][:12]
     trig = sorted({t["rx"]["ty"] + ("r" if t["rx"].get("code") else "e") for t in sched.get("triggers", ())})
@@ -191,6 +217,10 @@ def work(rep, args):
         model = [behaviour_to_schedule(b) for b in behaviours]
         model = [(s, e) for s, e in model if s["steps"]]
         rand = [random_schedule(rng) for _ in range(nrand)]
+        rand += [forged_schedule(rng) for _ in range(20 if quick else 200)]
+        rand += [allocator_schedule(1, 300, True), allocator_schedule(rng.choice([0, 255, 65535, rng.randint(0, 65535)]), 300, False)]
+        if not quick:
+            rand += [allocator_schedule(255, 700, True), allocator_schedule(65535, 1100, False)]
         scheds = [s for s, _ in model] + rand
         results = run_all(scheds)
         for s, res in zip(scheds, results):
